@@ -702,6 +702,22 @@ def extreme_structures():
     yield 'many-headers', '[setup]\n' * 3000
     yield 'long-header', '[' + 'x' * 100000 + ']\n'
     yield 'long-unknown-instruction', '[setup]\n' + 'y' * 100000 + ' arg\n'
+    # long runs of one kind of line that carries no instruction (empty, blanks, tabs, comment, and white space that
+    # is not space/tab: FF, VT, NBSP, U+2028, NEL), in each phase, before and after the phase's own contents
+    fillers = (('empty', ''), ('spaces', '   '), ('tab', '\t'), ('comment', '# c'), ('ff', '\x0c'), ('vt', '\x0b'),
+               ('nbsp', '\xa0'), ('ls', '\u2028'), ('nel', '\x85'), ('fs', '\x1c'))
+    bodies = {'conf': 'status = PASS', 'setup': 'env A = b', 'act': '% true', 'before-assert': 'env A = b',
+              'assert': 'exit-code == 0', 'cleanup': 'env A = b'}
+    for fname, ftext in fillers:
+        for ph in PHASE_ORDER:
+            for where in ('after', 'before', 'alone'):
+                for n in (1500,):
+                    run = (ftext + '\n') * n
+                    body = bodies[ph] + '\n'
+                    txt = '[%s]\n' % ph + {'after': body + run, 'before': run + body, 'alone': run}[where]
+                    if ph != 'act':
+                        txt += '[act]\n% true\n'
+                    yield 'filler-%s-%s-%s-%d' % (fname, ph, where, n), txt
     yield 'symbol-chain-300', ('[setup]\ndef string A0 = x\n' + ''.join('def string A%d = @[A%d]@\n' % (i + 1, i)
                                                                          for i in range(300))
                                + 'file f.txt = @[A300]@\n')
